@@ -290,9 +290,11 @@ int
 storage_properties_copy(struct StorageProperties* dst,
                         const struct StorageProperties* src)
 {
-    // 1. Copy everything except the strings
+    // 1. Copy everything except the strings and the dimensions
     {
         struct String tmp_uri, tmp_meta, tmp_access_key, tmp_secret_key;
+        const struct storage_properties_dimensions_s tmp_dims =
+          dst->acquisition_dimensions;
         memcpy(&tmp_uri, &dst->uri, sizeof(struct String)); // NOLINT
         memcpy(&tmp_meta,                                   // NOLINT
                &dst->external_metadata_json,
@@ -315,6 +317,9 @@ storage_properties_copy(struct StorageProperties* dst,
         memcpy(&dst->secret_access_key,
                &tmp_secret_key,
                sizeof(struct String)); // NOLINT
+        // dst keeps its own dimension array: the shallow copy above must
+        // not make it point at (and later free) the source's array
+        dst->acquisition_dimensions = tmp_dims;
     }
 
     // 2. Reallocate and copy the Strings
@@ -325,9 +330,10 @@ storage_properties_copy(struct StorageProperties* dst,
     CHECK(copy_string(&dst->secret_access_key, &src->secret_access_key));
 
     // 3. Copy the dimensions
-    if (src->acquisition_dimensions.data) {
+    if (dst->acquisition_dimensions.data) {
         storage_properties_dimensions_destroy(dst);
-
+    }
+    if (src->acquisition_dimensions.data) {
         CHECK(storage_properties_dimensions_init(
           dst, src->acquisition_dimensions.size));
         for (size_t i = 0; i < src->acquisition_dimensions.size; ++i) {
